@@ -84,12 +84,11 @@ def pyStr : Option (List Char) → List Char
   | none => "None".toList
   | some s => s
 
-/-- The text of the RemoteError for a declared signature that differs, e.g.
-`'Unexpected return value signature: %s' % ('Expected "{}". Received "{}"'.format(str(rs), str(sig)),)`:
-the generated template with `str(returnSignature)` and `str(msg.signature)` filled in. -/
-def mismatchText (rs sig : Option (List Char)) : List Char :=
-  C08Client.mismatchTemplate.flatMap fun p =>
-    if p.1 = 1 then pyStr rs else if p.1 = 2 then pyStr sig else p.2.toList
+/-- The wording of the exceptions the client generates locally (`RemoteError('Unexpected return value
+signature ...')`, `TimeOut('Method call timed out')`) is not part of the property and is not modelled: the
+model carries this placeholder where the code carries a text (the correspondence compares the exception class,
+not the text). -/
+def localText : List Char := []
 
 /-- `returnSignature == _NO_CHECK_RETURN` for a `str` argument (no string equals a sentinel that is not one). -/
 def isSentinel (r : List Char) : Bool :=
@@ -102,13 +101,13 @@ def sigCheck (rs : RetSig) (sig : Option (List Char)) : Option (List Char) :=
   match rs with
   | .noCheck => none
   | .pyNone =>                      -- `not returnSignature`
-    if truthyStr sig then some C08Client.unexpectedSig.toList else none
+    if truthyStr sig then some localText else none
   | .str r =>
     if isSentinel r then none     -- `returnSignature != _NO_CHECK_RETURN` is a comparison of values
     else if r.isEmpty then
-      if truthyStr sig then some C08Client.unexpectedSig.toList else none
+      if truthyStr sig then some localText else none
     else
-      if !truthyStr sig || sig != some r then some (mismatchText (some r) sig) else none
+      if !truthyStr sig || sig != some r then some localText else none
 
 /-- `_cbCvtReply(msg, returnSignature)`; `msg = None` is what `defer.succeed(None)` passes for
 `expectReply=False`. -/
@@ -280,7 +279,7 @@ def expireOp (s : St V R) (tid : Nat) : St V R :=
     match dGet serial s.pending with
     | none => { s with faults := s.faults ++ [.keyError] }
     | some _ =>
-      fire { s with pending := dDel serial s.pending } tid (.timeOut C08Client.timeoutText.toList)
+      fire { s with pending := dDel serial s.pending } tid (.timeOut localText)
 
 /-- The loop of `connectionLost` over `pending.values()` (the table as it was when the connection was lost). -/
 def lostLoop (reason : R) :
